@@ -21,7 +21,8 @@
 EXTENDS CacheContract
 
 CONSTANTS Loops, Callers, LoopOf, MaxInv, MaxRetry,
-          OwnMarkerOnly, ForeignCancelRetry, LifeCycles, Cancels, Failures, Timeouts
+          OwnMarkerOnly, ForeignCancelRetry, LifeCycles, Cancels, Failures, Timeouts,
+          Evictions      \* BOOLEAN: the caller-supplied mapping may drop the entry at any moment (bounded LRU, TTL, del)
 
 None == "none"          \* no loop
 NoC == 0                 \* no caller
@@ -359,7 +360,13 @@ CallerStep(c) ==
     \/ MkWait(c) \/ ProxyStep(c) \/ BridgeWake(c) \/ Wake(c) \/ Timeout60(c)
     \/ CancelCaller(c) \/ CancelBeforeStart(c) \/ WaitCancelled(c)
 
+Evict ==         \* the mapping drops the entry (another key pushes it out, it expires, the caller deletes it): no lock is involved
+    /\ Evictions /\ cache # 0
+    /\ cache' = 0
+    /\ UNCHANGED <<lstate, cur, pc, marker, lock, evset, nev, loc, finv, fout, proxy, hit, retries, mon>>
+
 Next == \/ \E c \in Callers : CallerStep(c)
+        \/ Evict
         \/ \E l \in Loops : LoopStop(l) \/ LoopShutdown(l) \/ LoopDrainStart(l) \/ LoopDrainDone(l) \/ LoopClose(l)
         \/ Done
 
@@ -369,6 +376,9 @@ FairSpec == Spec /\ WF_vars(Next)
 \* ---------------------------------------------------------------- properties
 Inv_C01 == mon.bad["C01"] = Ok
 Inv_C06 == mon.bad["C06"] = Ok
+\* with an evicting mapping the once-done clause of C01 does not apply, the single-flight clause still does:
+\* an eviction causes a recomputation, never two at once (C14: "exactly one recomputation")
+SingleFlightEvenIfEvicting == mon.bad["C01"] = Ok \/ mon.bad["C01"][1] # "C01_SingleFlight"
 \* structural facts the code relies on
 LockDiscipline == lock # NoC => cur[L(lock)] = lock
 MarkerOwner == marker # NoMarker =>
